@@ -143,6 +143,44 @@ def monitors(trace, case=None):
     return problems
 
 
+FIFO_KEY = 'fifo-foreign-putback'
+
+
+def fifo_problems(trace, case):
+    """C06, ordering clause: events enqueued by one thread and consumed (dispatched / taken) by one thread are consumed
+    in the order they were enqueued.  Applied to a pair (producer P, consumer C) when every consumed event of P was
+    consumed by C and C itself uses no predicate (its own processIf / processUntil consume out of order by design:
+    what the predicate declines stays queued).  Returns [(text, key)]: key FIFO_KEY when another thread's processIf /
+    processUntil is in the program (the committed known finding), None otherwise."""
+    if case is None:
+        return []
+    owner, order = {}, {}
+    for p, th in enumerate(case['threads']):
+        for c in th:
+            if c[0] == 'enqueue':
+                owner[c[2]] = p
+                order.setdefault(p, []).append(c[2])
+    consumed = {}                      # producer -> [(consumer thread, arg)] in trace order
+    for l in trace:
+        ws = l.split()
+        if ws and ws[0] in ('disp', 'taken') and ws[-1] in owner:
+            consumed.setdefault(owner[ws[-1]], []).append((ws[1], ws[-1]))
+    out = []
+    for p, lst in consumed.items():
+        cs = set(c for c, _ in lst)
+        if len(cs) != 1:
+            continue
+        ctid = int(list(cs)[0][1:])
+        if ctid >= len(case['threads']) or any(c[0] in ('processif', 'processuntil') for c in case['threads'][ctid]):
+            continue
+        idx = [order[p].index(a) for _, a in lst]
+        if idx != sorted(idx):
+            foreign = any(c[0] in ('processif', 'processuntil') for t, th in enumerate(case['threads']) if t != ctid for c in th)
+            out.append(('thread t%d is the only consumer of the events thread t%d enqueued, and consumed them in the order %s although they were enqueued in the order %s'
+                        % (ctid, p, ' '.join(a for _, a in lst), ' '.join(order[p])), FIFO_KEY if foreign else None))
+    return out
+
+
 def shrink(case, still, max_tests=200):
     tests = [0]
 
@@ -189,8 +227,11 @@ def run_both(binary, case, driver='qconc'):
     return t, m, im
 
 
-def correspond(ctx, binary, cases, what, driver='qconc', monitors=None):
-    monitors = monitors or globals()['monitors']
+def correspond(ctx, binary, cases, what, driver='qconc', monitors=None, fifo=False):
+    base_monitors = monitors or globals()['monitors']
+
+    def monitors(trace, case=None):
+        return base_monitors(trace, case) + ([t for t, _ in fifo_problems(trace, case)] if fifo else [])
     ids = [str(i) for i in range(len(cases))]
     texts = {i: case_text(i, cases[int(i)]) for i in ids}
     model = vlib.run_model('run', ''.join(texts[i] for i in ids), driver=driver)
@@ -217,6 +258,12 @@ def correspond(ctx, binary, cases, what, driver='qconc', monitors=None):
             continue
         reported += 1
         case = cases[int(i)]
+        keyed = fifo_problems(b, case) if fifo else []
+        if probs and keyed and len(keyed) == len(probs) and all(k for _, k in keyed):
+            # only the ordering clause is broken, and in the way the committed known finding describes
+            reported -= 1
+            ctx.violation(texts[i] + '# impl : %s\n' % ' | '.join(b), '%s: %s' % (what, '; '.join(probs)), key=keyed[0][1])
+            continue
         if probs:
             def still(c):
                 t, m, im = run_both(binary, c, driver)
